@@ -1109,6 +1109,66 @@ def chain_cases(rng, per_pair, ntriples):
     return out
 
 
+def remap_cases(rng, n):
+    """remap_columns whose map_list repeats source keys -- at the beginning, in the middle or at the end, with
+    DIFFERENT destinations, also as the numeric-looking pair 1 / "1" -- among keys that occur in the table.
+    Every entry has its own destination value, so a lookup that lands on a neighbouring entry is visible.
+    Documented meaning: the first entry of a key wins and the other keys are unaffected."""
+    out = []
+    for n_case in range(n):
+        t = gen_event_table(rng) if rng.random() < 0.5 else gen_table(rng, nrows=rng.randint(3, 6))
+        cols, rows = t["cols"], t["rows"]
+        if not rows:
+            continue
+        nsrc = 1 if rng.random() < 0.75 else min(2, len(cols))
+        src = rng.sample(cols, nsrc)
+        idx = [cols.index(c) for c in src]
+        numeric_src = [c for c, i in zip(src, idx) if all(isinstance(r[i], int) or r[i] == NA for r in rows)]
+        present = list(dict.fromkeys(tuple(r[i] for i in idx) for r in rows))      # typed keys, table order
+        rng.shuffle(present)
+        keys = present[:rng.randint(2, 5)]
+        if rng.random() < 0.5:
+            keys.insert(rng.randint(0, len(keys)), tuple(rng.choice(["zz", 77]) for _ in src))   # a key not in the table
+        if len(keys) < 2:
+            continue
+
+        def respell(k):
+            """the same key, written differently where JSON allows it: 1 <-> "1" """
+            alt = tuple((str(x) if isinstance(x, int) else (int(x) if num_of(x) is not None and str(int(x)) == x else x))
+                        for x in k)
+            return alt if (alt != k and rng.random() < 0.6) else k
+        # the repeated keys and where the repeats go
+        entries = [list(k) for k in keys]
+        for _ in range(rng.choice([1, 1, 2])):
+            j = rng.randrange(len(keys))
+            where = rng.choice(["begin", "middle", "end", "adjacent"])
+            dup = list(respell(keys[j]))
+            first = entries.index(list(keys[j])) if list(keys[j]) in entries else 0
+            pos = {"begin": 0, "middle": rng.randint(0, len(entries)), "end": len(entries),
+                   "adjacent": first + 1}[where]
+            entries.insert(pos, dup)
+        ndst = rng.randint(1, 2)
+        dst = rng.sample([c for c in NEWCOLS + ["h"] if c not in cols], ndst)
+        if rng.random() < 0.25:
+            free = [c for c in cols if c not in src]
+            if free:
+                dst[0] = rng.choice(free)            # an existing column is overwritten
+        ml = []
+        for e_i, e in enumerate(entries):
+            row = e + [(f"v{e_i}" if rng.random() < 0.7 else 100 + e_i) for _ in dst]
+            if row not in ml:
+                ml.append(row)
+        p = dict(source_columns=src, destination_columns=dst, map_list=ml, ignore_missing=rng.random() < 0.7)
+        if numeric_src and rng.random() < 0.5:
+            p["integer_sources"] = rng.sample(numeric_src, rng.randint(1, len(numeric_src)))
+        ops = [op("remap_columns", **p)]
+        if rng.random() < 0.3:
+            ops.append(active_op(rng, rng.choice(["remove_rows", "rename_columns", "reorder_columns", "remove_columns"]), t))
+        tables = [t] if rng.random() < 0.7 else [t, t]
+        out.append({"ops": ops, "tables": tables, "expect_valid": spec_valid(ops), "kind": "remap-repeated-keys"})
+    return out
+
+
 def malformed_cases(rng, n):
     """Lists that violate the JSON specification in exactly one known way."""
     out = []
@@ -1296,7 +1356,8 @@ def run(tier, seed, res, model_ok=True, proof_ok=True):
                       "the PARAMS in the tree have booleans/optional properties the generator does not enumerate", no_input=True)
     cases = corpus() + corpus_f5(random.Random(0)) + systematic_cases(rng, per) + random_cases(rng, nrand) \
         + malformed_cases(rng, nbad) + drop_cases(rng, 3 if tier == "quick" else 20) \
-        + chain_cases(rng, 5 if tier == "quick" else 40, 200 if tier == "quick" else 3000)
+        + chain_cases(rng, 5 if tier == "quick" else 40, 200 if tier == "quick" else 3000) \
+        + remap_cases(rng, 250 if tier == "quick" else 3000)
     with Pool(int(C.JOBS)) as pool:
         impl = pool.map(impl_one, cases, chunksize=50)
 
@@ -1341,7 +1402,8 @@ def run(tier, seed, res, model_ok=True, proof_ok=True):
         "rule": "corpus (refuted witnesses + regressions) + every operation x every setting of its boolean flags and "
                 f"optional parameters x {per} draws of (tables, processing order of 1-3 tables through ONE dispatcher) + "
                 f"{nrand} random lists of 1-3 operations + {nbad} lists with one seeded specification fault + every ordered "
-                "pair of operations (and sampled triples) built from the intermediate tables on event tables; "
+                "pair of operations (and sampled triples) built from the intermediate tables on event tables + remap_columns "
+                "maps with repeated (also 1 / \"1\") keys at the beginning/middle/end among keys of the table; "
                 "non-trivial = specification-valid list and at least one table with rows",
         "samples": [cases[0], cases[len(cases) // 2], cases[-1]],
         "exhaustive": False,
